@@ -40,6 +40,7 @@ type Config struct {
 	// MultiToken: plug the harness's token table (stake, gold/ugold scale 3, silver) into the keeper's TokenKeeper seam and
 	// serve exchange rates from Rates (pair "<min unit>-stake" -> decimal) through the "oracle" module service (implies
 	// the module-service registration and its genesis records)
+	SysPrice   string            `json:"sys_price,omitempty"` // price text of the module's system binding in the genesis (default: the built-in 0stake)
 	MultiToken bool              `json:"multi_token,omitempty"`
 	Rates      map[string]string `json:"rates,omitempty"`
 	Replicas      int  `json:"replicas"`       // >=1
